@@ -212,6 +212,68 @@ func buildNatives() map[string]nativeFn {
 		return in.uninterpNum("time.ParseDuration", a[0].(Str), in.C.Const(64, 0), fn)
 	}
 	m["bytes.Replace"] = nativeBytesReplace
+	// internal/bytealg primitives are assembly: modelled as the obvious loops
+	// over byte terms, every comparison a decision
+	byteTerms := func(in *Interp, v Value) []*smt.Term {
+		switch x := v.(type) {
+		case Str:
+			return in.strBytes(x)
+		case Slice:
+			out := make([]*smt.Term, x.Len)
+			for i := range out {
+				out[i] = x.A.E[x.Off+i].(*smt.Term)
+			}
+			return out
+		}
+		panic(in.unenc("bytealg: unexpected argument %T", v))
+	}
+	indexByte := func(in *Interp, fn *ssa.Function, a []Value) Value {
+		for i, b := range byteTerms(in, a[0]) {
+			if in.decide(in.C.Eq(b, a[1].(*smt.Term))) {
+				return in.C.Const(64, uint64(i))
+			}
+		}
+		return in.C.Const(64, ^uint64(0))
+	}
+	m["internal/bytealg.IndexByte"] = indexByte
+	m["internal/bytealg.IndexByteString"] = indexByte
+	count := func(in *Interp, fn *ssa.Function, a []Value) Value {
+		n := uint64(0)
+		for _, b := range byteTerms(in, a[0]) {
+			if in.decide(in.C.Eq(b, a[1].(*smt.Term))) {
+				n++
+			}
+		}
+		return in.C.Const(64, n)
+	}
+	m["internal/bytealg.Count"] = count
+	m["internal/bytealg.CountString"] = count
+	m["internal/bytealg.Equal"] = func(in *Interp, fn *ssa.Function, a []Value) Value {
+		x, y := byteTerms(in, a[0]), byteTerms(in, a[1])
+		if len(x) != len(y) {
+			return in.C.False
+		}
+		eq := in.C.True
+		for i := range x {
+			eq = in.C.And(eq, in.C.Eq(x[i], y[i]))
+		}
+		return eq
+	}
+	index := func(in *Interp, fn *ssa.Function, a []Value) Value {
+		x, y := byteTerms(in, a[0]), byteTerms(in, a[1])
+		for i := 0; i+len(y) <= len(x); i++ {
+			eq := in.C.True
+			for k := range y {
+				eq = in.C.And(eq, in.C.Eq(x[i+k], y[k]))
+			}
+			if in.decide(eq) {
+				return in.C.Const(64, uint64(i))
+			}
+		}
+		return in.C.Const(64, ^uint64(0))
+	}
+	m["internal/bytealg.Index"] = index
+	m["internal/bytealg.IndexString"] = index
 	// sort.Slice / sort.SliceStable go through reflection (reflectlite.Swapper):
 	// modelled as a stable insertion sort that calls the real less closure on
 	// the real backing array (element moves are logged as stores).
